@@ -93,6 +93,7 @@ Definition policy_table : list (string * string * policy) := [
      (* set once by the first SendMsg under the mutex (guard cs.ClientStream == nil); SendMsg/RecvMsg use it after
         leaving a critical section in which they saw it non-nil (RecvMsg loops on the condition variable until then) *)
   ("gcpClientStream", "initStreamErr", GuardedBy CS);
+  ("gcpClientStream", "watching", GuardedBy CS);  (* set once under the stream mutex when the ctx watcher goroutine is started (fix S2) *)
   ("gcpClientStream", "cond", InitOnly);
   ("gcpClientStream", "ctx", InitOnly);
   ("gcpClientStream", "desc", InitOnly);
